@@ -160,4 +160,22 @@ def prepareRouteRequestsBody : List String :=
    "for routeKey, r := range routes { routeStatus := prepareRouteStatus( gatewayCtlrName, r.ParentRefs, r.Conditions, nginxReloadRes, transitionTime, r.Source.GetGeneration(), ) switch r.RouteType { case graph.RouteTypeHTTP: status := v1.HTTPRouteStatus{ RouteStatus: routeStatus, } req := frameworkStatus.UpdateRequest{ NsName: routeKey.NamespacedName, ResourceType: &v1.HTTPRoute{}, Setter: newHTTPRouteStatusSetter(status, gatewayCtlrName), } reqs = append(reqs, req) case graph.RouteTypeGRPC: status := v1.GRPCRouteStatus{ RouteStatus: routeStatus, } req := frameworkStatus.UpdateRequest{ NsName: routeKey.NamespacedName, ResourceType: &v1.GRPCRoute{}, Setter: newGRPCRouteStatusSetter(status, gatewayCtlrName), } reqs = append(reqs, req) default: panic(fmt.Sprintf(\"Unknown route type: %s\", r.RouteType)) } }",
    "return reqs"]
 
+/-- statements of Graph.attachPolicies -/
+def attachPoliciesBody : List String :=
+  ["if g.Gateway == nil { return }",
+   "for _, policy := range g.NGFPolicies { for _, ref := range policy.TargetRefs { switch ref.Kind { case kinds.Gateway: attachPolicyToGateway(policy, ref, g.Gateway, g.IgnoredGateways, ctlrName) case kinds.HTTPRoute, kinds.GRPCRoute: route, exists := g.Routes[routeKeyForKind(ref.Kind, ref.Nsname)] if !exists { continue } attachPolicyToRoute(policy, route, ctlrName) case kinds.Service: svc, exists := g.ReferencedServices[ref.Nsname] if !exists { continue } attachPolicyToService(policy, svc, g.Gateway, ctlrName) } } }"]
+
+/-- statements of attachPolicyToService -/
+def attachPolicyToServiceBody : List String :=
+  ["if ngfPolicyAncestorsFull(policy, ctlrName) { return }",
+   "ancestor := PolicyAncestor{ Ancestor: createParentReference(v1.GroupName, kinds.Gateway, client.ObjectKeyFromObject(gw.Source)), }",
+   "if !gw.Valid { ancestor.Conditions = []conditions.Condition{staticConds.NewPolicyTargetNotFound(\"Parent Gateway is invalid\")} if ancestorsContainsAncestorRef(policy.Ancestors, ancestor.Ancestor) { return } policy.Ancestors = append(policy.Ancestors, ancestor) return }",
+   "if !ancestorsContainsAncestorRef(policy.Ancestors, ancestor.Ancestor) { policy.Ancestors = append(policy.Ancestors, ancestor) }",
+   "svc.Policies = append(svc.Policies, policy)"]
+
+/-- statements of ancestorsContainsAncestorRef -/
+def ancestorsContainsAncestorRefBody : List String :=
+  ["for _, an := range ancestors { if parentRefEqual(an.Ancestor, ref) { return true } }",
+   "return false"]
+
 end NGF.PipelineStatus.Expected
